@@ -24,7 +24,7 @@ from optilint.model import dotted, FuncVal, walk_local
 from optilint.core import Incomplete
 from optilint.expr import Algebra, NotPolynomial, feval
 from . import trustregion as tr
-from .common import src, expand, canon, same, calls_in, single_def, def_value, const_value, actual, cond_atoms
+from .common import Unifier, src, expand, canon, same, calls_in, single_def, def_value, const_value, actual, cond_atoms
 
 LEVEL = "other"
 RULE_TEXT = ("obligations = (exit of the AL driver x guarded return) + (link of the residual chain) + (writer of .lam/.kappa in "
@@ -150,46 +150,49 @@ def d1_chain(ctx):
                detail="jit_hres(xl, p, kappa)", bad_detail=f"constrained_residual returns `{src(r[0]) if r else '?'}`")
     init = ctx.need(f"{CO}:ConstrainedObjective.__init__")
     icfg = cfg_of(init)
-    assigns = {}
+    u = Unifier(init)
+    ip = init.params()       # self, objective_func, constraint_func, ...
+    attr_def = {}
     for st in walk_local(init.node):
         if isinstance(st, ast.Assign) and isinstance(st.targets[0], ast.Attribute) and isinstance(st.targets[0].value, ast.Name) \
-                and st.targets[0].value.id == "self":
-            assigns.setdefault(st.targets[0].attr, []).append(st)
-        if isinstance(st, ast.Assign) and isinstance(st.targets[0], ast.Name):
-            assigns.setdefault(st.targets[0].id, []).append(st)
-    def one(name):
-        lst = assigns.get(name, [])
+                and st.targets[0].value.id == ip[0]:
+            attr_def.setdefault(st.targets[0].attr, []).append(st)
+    # locals first (they bind the pattern variables), then the attributes that use them
+    for nm, want in (("f", f"{ip[0]}.create_augmented_lagrangian({ip[1]}, {ip[2]})"), ("grad_x", "grad(f, 0)")):
+        hit = u.assigns(want, target=nm)
+        ctx.decide(rule, len(hit) == 1, init, hit[0] if hit else None, construct=f"init:{nm}", detail=f"{nm} = {want}",
+                   bad_detail=f"no unique definition `{nm} = {want}` (up to names of locals) in ConstrainedObjective.__init__")
+    for nm, want in (("jit_hres", f"jit({ip[0]}.hres)"),
+                     ("hres", "lambda xl, p, k: hres_all_args(xl[:-k.size], p, xl[-k.size:], k)"),
+                     ("jit_grad_x", "jit(grad_x)"), ("jit_objective", "jit(f)")):
+        lst = attr_def.get(nm, [])
         if len(lst) != 1:
-            raise Incomplete(f"ConstrainedObjective.__init__: {len(lst)} definitions of {name}")
-        return lst[0]
-    checks = [
-        ("jit_hres", "jit(self.hres)"),
-        ("hres", "lambda xl, p, k: hres_all_args(xl[:-k.size], p, xl[-k.size:], k)"),
-        ("grad_x", "grad(f, 0)"),
-        ("f", "self.create_augmented_lagrangian(objective_func, constraint_func)"),
-        ("jit_grad_x", "jit(grad_x)"),
-        ("jit_objective", "jit(f)"),
-    ]
-    for nm, want in checks:
-        st = one(nm)
-        ctx.decide(rule, same(st.value, want), init, st, construct=f"init:{nm}", detail=f"{nm} = {want}",
-                   bad_detail=f"{nm} is defined as `{src(st.value)}`, expected `{want}`")
+            raise Incomplete(f"ConstrainedObjective.__init__: {len(lst)} definitions of self.{nm}")
+        st = lst[0]
+        ctx.decide(rule, u.match(st.value, want), init, st, construct=f"init:{nm}", detail=f"self.{nm} = {want}",
+                   bad_detail=f"self.{nm} is defined as `{src(st.value)}`, expected `{want}` (up to names of locals)")
     # nested helper functions
     kids = {c.name: c for c in init.children if c.kind == "function"}
     for nm, want in (("hres_all_args", "np.hstack((grad_x(x, p, l, k), ncp_func(x, p, l)))"),
-                     ("ncp_func", "vmap(fischer_burmeister)(c, l, self.constraintKappa)")):
+                     ("ncp_func", f"vmap(fischer_burmeister)(c, l, {ip[0]}.constraintKappa)")):
         k = kids.get(nm)
         if k is None:
             raise Incomplete(f"ConstrainedObjective.__init__.{nm} not found")
         kcfg = cfg_of(k)
         r = kcfg.returns()
         e = r[0].ast.value if r else None
-        ctx.decide(rule, len(r) == 1 and same(e, want), k, e, construct=f"init:{nm}", detail=want,
+        uk = Unifier(k)
+        uk.bind = {t: a for t, a in u.bind.items()}
+        kp = k.params()
+        want_k = want
+        for old_, new_ in zip(("x", "p", "l", "k"), kp):
+            want_k = __import__("re").sub(rf"\b{old_}\b", new_, want_k)
+        ctx.decide(rule, len(r) == 1 and uk.match(e, want_k), k, e, construct=f"init:{nm}", detail=want,
                    bad_detail=f"{nm} returns `{src(e)}`, expected `{want}`")
         if nm == "ncp_func" and r:
-            cd = single_def(kcfg, r[0], "c")
-            ok = cd is not None and same(def_value(cd, "c"), "constraint_func(x, p)")
-            ctx.decide(rule, ok, k, cd.ast if cd else None, construct="init:ncp_func:c", detail="c = constraint_func(x, p)",
+            cd = uk.def_of("c")
+            ok = len(cd) == 1 and uk.match(cd[0].value, f"{ip[2]}({kp[0]}, {kp[1]})")
+            ctx.decide(rule, ok, k, cd[0] if cd else None, construct="init:ncp_func:c", detail="c = constraint_func(x, p)",
                        bad_detail="the NCP function is not evaluated on constraint_func(x, p)")
     # Fischer-Burmeister formula
     fb = ctx.need(f"{CO}:fischer_burmeister")
